@@ -200,6 +200,30 @@ def compare(ctx, label, arr, rows, opts, d_s, w, rests=False, scale=1, prefix=""
     return True
 
 
+def check_collapsed_rests(ctx, part, arr):
+    """rest_array(collapse=True): joined rests are rows like any other - their lengths in divisions, quarters and beats are one
+    and the same stretch of the timeline, and together they cover exactly the rests of the part."""
+    import partitura.score as S
+    d_t = timemaps.describe(part)
+    if d_t["n_points"] < 2 or len(arr) == 0:
+        return
+    musical = bool(getattr(part, "_use_musical_beat", False))
+    model = timemaps.Model(d_t, musical=musical)
+    for a in arr:
+        on, dur = int(a["onset_div"]), int(a["duration_div"])
+        ctx.check(2)
+        for col, exact in (("duration_quarter", model.quarter(on + dur) - model.quarter(on)), ("duration_beat", model.beat(on + dur) - model.beat(on))):
+            if col in arr.dtype.names and not f4close(a[col], exact):
+                ctx.violation(f"rest_array-collapsed-cell-{col}", f"joined rest {a['id']} [{on},{on + dur}): {col} {float(a[col])!r}, the stretch lasts {float(exact)!r}",
+                              {"row_id": str(a["id"]), "onset_div": on, "duration_div": dur})
+                return
+    rests = timemaps.objects_of(part, S.Rest, exact=False)
+    ctx.check()
+    if sum(int(a["duration_div"]) for a in arr) != sum(int(r.end.t - r.start.t) for r in rests):
+        ctx.violation("rest_array-collapsed-total-length", f"joined rests last {sum(int(a['duration_div']) for a in arr)} divisions, the rests of the part "
+                      f"{sum(int(r.end.t - r.start.t) for r in rests)}", None)
+
+
 def check_order(ctx, label, arr, w):
     ctx.check()
     keys = list(zip(arr["onset_div"].tolist(), arr["pitch"].tolist()))
@@ -309,6 +333,8 @@ def install(ctx):
             args = bind(h2.orig, a, k)
             if not args.get("collapse"):
                 check_part_array(core.CURRENT, args["part"], args, ret, rests=True)
+            else:
+                check_collapsed_rests(core.CURRENT, args["part"], ret)
 
     def post_list(ret, exc, token, a, k):
         if exc is None:
@@ -390,6 +416,8 @@ def run_item(ctx, item):
             ctx.state(f"{n_opt}:{meta['ties'] > 0}:{meta['graces'] > 0}:{bool(meta['pickup'])}:{len(meta['divs']) > 1}")
         ropts = {o: rng.random() < 0.5 for o in OPTS[:6]}
         ctx.try_call(part.rest_array, **ropts)
+        if rng.random() < 0.5:
+            ctx.try_call(part.rest_array, collapse=True)
         ctx.try_call(M.ensure_notearray, part)
     elif kind == "score":
         rng = ctx.rng("score", item[1])
